@@ -67,15 +67,16 @@ Theorem C04_bad_close_body :
 Proof. exact bad_close_after_prefix. Qed.
 Print Assumptions C04_bad_close_body.
 
-(* a 64-bit length with the top bit set: refused after the 10 header bytes with ErrReadLimit,
-   nothing written (the exception the property names), nothing delivered *)
+(* a 64-bit length with the top bit set: refused after the 10 header bytes with ErrReadLimit
+   and the 1009 close (the exception the property names: ErrReadLimit, not 1002), nothing delivered *)
 Theorem C04_top_bit_length :
   forall c s b0 b1 len rest,
     binv (br s) -> (125 <= bsize (br s))%nat -> rem s = 0 ->
     pending (br s) = b0 :: b1 :: be_enc 8 len ++ rest -> N.land b1 127 = 127 -> 2^63 <= len -> len < 2^64 ->
     hdr_reject c (rfin s) b0 b1 = false ->
-    exists s', advance_frame c s = (AErr RReadLimit, s') /\ wlog s' = wlog s /\ hlog s' = hlog s /\
-      hcount s' = hcount s /\ closesent s' = closesent s /\ pending (br s') = rest /\ binv (br s') /\
+    exists s', advance_frame c s = (AErr RReadLimit, s') /\
+      wlog s' = (if closesent s then wlog s else wlog s ++ [WCloseTooBig]) /\ hlog s' = hlog s /\
+      hcount s' = hcount s /\ closesent s' = true /\ pending (br s') = rest /\ binv (br s') /\
       outoffuel s' = outoffuel s.
 Proof. exact ViolP.top_bit_length_refused. Qed.
 Print Assumptions C04_top_bit_length.
